@@ -9,13 +9,13 @@ Print Assumptions C11_hit_skips_inner.
 
 Theorem C11_miss_returns_inner_unchanged : forall pos inst cfg (inner : layer) c w,
   (cache_key w cfg = 0 \/ cache_get (nth inst (w_caches w) []) (cache_key w cfg) = None) ->
-  fst (cache_layer pos inst cfg inner c w) = fst (inner c (emit w KCacheMiss pos (snapshot w c) 0)).
+  fst (cache_layer pos inst cfg inner c w) = fst (inner c (stamp (emit w KCacheMiss pos (snapshot w c) 0) c)).
 Proof. exact cache_miss_returns_inner. Qed.
 Print Assumptions C11_miss_returns_inner_unchanged.
 
 Theorem C11_stored_iff_cacheable_and_keyed : forall pos inst cfg (inner : layer) c w,
   (cache_key w cfg = 0 \/ cache_get (nth inst (w_caches w) []) (cache_key w cfg) = None) ->
-  let w1 := emit w KCacheMiss pos (snapshot w c) 0 in
+  let w1 := stamp (emit w KCacheMiss pos (snapshot w c) 0) c in
   let r := fst (inner c w1) in let w2 := snd (inner c w1) in
   w_caches (snd (cache_layer pos inst cfg inner c w)) =
     if cacheable cfg (pr_out r) && negb (cache_key w cfg =? 0)
